@@ -19,6 +19,8 @@ import (
 	"context"
 	"sync"
 	"sync/atomic"
+
+	"github.com/B1NARY-GR0UP/originium/pkg/verifhook"
 )
 
 const _markCBufferSize = 100
@@ -143,6 +145,7 @@ func (w *WaterMark) process() {
 					doneUntil = minTs
 				}
 
+				verifhook.At("wm.process", w, ts, m.done, doneUntil)
 				if doneUntil > currDoneUntil {
 					w.doneUntil.Store(doneUntil)
 
